@@ -66,6 +66,11 @@ def nonNullTy : Ty → Bool
   | .vtuple _ => true
   | .tuple (_ :: _) => true
   | .map .dict .str _ => true
+  | .seq .set _ => true
+  | .seq .frozenset _ => true
+  | .map .defaultdict .str _ => true
+  | .map .ordereddict .str _ => true
+  | .ntuple _ _ => true
   | .cls _ _ => true
   | _ => false
 
@@ -91,6 +96,19 @@ inductive Conf (std : Std) (cfg : Option MetaCfg) : Ty → PyVal → Prop
   | inst (ci : ClassInfo) (ftys : List (S × Ty)) (vals : List PyVal) : PlainCls cfg ci ftys → vals.length = ftys.length →
       (∀ p ∈ ftys.zip vals, Conf std cfg p.1.2 p.2) →
       Conf std cfg (.cls ci ftys) (.inst ci ((ftys.map (·.1)).zip vals))
+  | set (t : Ty) (xs : List PyVal) : xs.all PyVal.hashable = true → dedupKeep xs = xs → (∀ x ∈ xs, Conf std cfg t x) →
+      Conf std cfg (.seq .set t) (.seq .set xs)
+  | frozenset (t : Ty) (xs : List PyVal) : xs.all PyVal.hashable = true → dedupKeep xs = xs → (∀ x ∈ xs, Conf std cfg t x) →
+      Conf std cfg (.seq .frozenset t) (.seq .frozenset xs)
+  | defaultdict (t : Ty) (kvs : List (S × PyVal)) : (kvs.map (·.1)).Nodup → (∀ p ∈ kvs, Conf std cfg t p.2) →
+      Conf std cfg (.map .defaultdict .str t) (.map .defaultdict (kvs.map (fun p => (.str p.1, p.2))))
+  | ordereddict (t : Ty) (kvs : List (S × PyVal)) : (kvs.map (·.1)).Nodup → (∀ p ∈ kvs, Conf std cfg t p.2) →
+      Conf std cfg (.map .ordereddict .str t) (.map .ordereddict (kvs.map (fun p => (.str p.1, p.2))))
+  | literal (vs : List Lit) (l : Lit) : vs.find? (fun l' => jEqLit l.toJ l') = some l →
+      Conf std cfg (.literal vs) l.toPy
+  | ntuple (name : S) (fields : List (S × Ty × Option Dflt)) (xs : List PyVal) : xs.length = fields.length →
+      (∀ p ∈ (fields.map (·.2.1)).zip xs, Conf std cfg p.1 p.2) →
+      Conf std cfg (.ntuple name fields) (.ntuple name (fields.map (·.1)) xs)
 
 
 /-- the round-trip statement for one value -/
@@ -426,6 +444,134 @@ theorem rt_leaf (std : Std) (cfg : Option MetaCfg) (laws : StdLaws std) (k : Lea
     have hz : zToOffset (isoZ t) = t := zToOffset_isoZ t (laws.datetime_noZ t ht)
     rw [hz, laws.datetime_rt t ht]; rfl
 
+/-! ### further container kinds: set / frozenset, defaultdict / OrderedDict, Literal, NamedTuple -/
+
+theorem dumpV_set (std : Std) (cfg : Option MetaCfg) (xs : List PyVal) :
+    dumpV std false cfg (.seq .set xs) = (dumpList std false cfg xs).map DVal.list := by
+  rw [dumpV]
+  simp only [hookFor_set, bind, Except.bind, pure, Except.pure, Except.map]
+
+theorem dumpV_frozenset (std : Std) (cfg : Option MetaCfg) (xs : List PyVal) :
+    dumpV std false cfg (.seq .frozenset xs) = (dumpList std false cfg xs).map DVal.list := by
+  rw [dumpV]
+  simp only [hookFor_frozenset, bind, Except.bind, pure, Except.pure, Except.map]
+
+theorem rt_set (std : Std) (cfg : Option MetaCfg) (t : Ty) (xs : List PyVal) (hh : xs.all PyVal.hashable = true)
+    (hd' : dedupKeep xs = xs) (ih : ∀ x ∈ xs, RT std cfg t x) : RT std cfg (.seq .set t) (.seq .set xs) := by
+  intro d h
+  rw [dumpV_set] at h
+  cases hd : dumpList std false cfg xs with
+  | error e => simp [hd, Except.map] at h
+  | ok ds =>
+    simp [hd, Except.map] at h; subst h
+    have htj : toJ (.list ds) = .list (toJList ds) := by rw [toJ]
+    rw [htj, loadD]
+    simp only [jIter, bind, Except.bind, mapME_list std cfg t xs ds ih hd, mkSeq, hh, if_true, hd', pure, Except.pure]
+
+theorem rt_frozenset (std : Std) (cfg : Option MetaCfg) (t : Ty) (xs : List PyVal) (hh : xs.all PyVal.hashable = true)
+    (hd' : dedupKeep xs = xs) (ih : ∀ x ∈ xs, RT std cfg t x) : RT std cfg (.seq .frozenset t) (.seq .frozenset xs) := by
+  intro d h
+  rw [dumpV_frozenset] at h
+  cases hd : dumpList std false cfg xs with
+  | error e => simp [hd, Except.map] at h
+  | ok ds =>
+    simp [hd, Except.map] at h; subst h
+    have htj : toJ (.list ds) = .list (toJList ds) := by rw [toJ]
+    rw [htj, loadD]
+    simp only [jIter, bind, Except.bind, mapME_list std cfg t xs ds ih hd, mkSeq, hh, if_true, hd', pure, Except.pure]
+
+theorem hookFor_defaultdict : hookFor (.map .defaultdict []) = .defaultdict := by decide +kernel
+theorem hookFor_ordereddict : hookFor (.map .ordereddict []) = .dict := by decide +kernel
+
+theorem dumpV_defaultdict (std : Std) (cfg : Option MetaCfg) (kvs : List (PyVal × PyVal)) :
+    dumpV std false cfg (.map .defaultdict kvs) = (dumpPairs std false cfg kvs).map (DVal.dict false) := by
+  rw [dumpV]
+  simp only [hookFor_defaultdict, bind, Except.bind, pure, Except.pure, Except.map]
+
+theorem dumpV_ordereddict (std : Std) (cfg : Option MetaCfg) (kvs : List (PyVal × PyVal)) :
+    dumpV std false cfg (.map .ordereddict kvs) = (dumpPairs std false cfg kvs).map (DVal.dict true) := by
+  rw [dumpV]
+  simp only [hookFor_ordereddict, bind, Except.bind, pure, Except.pure, Except.map]
+  cases dumpPairs std false cfg kvs <;> first | rfl | simp
+
+theorem rt_mapk (std : Std) (cfg : Option MetaCfg) (k : MapKind) (ord : Bool) (t : Ty) (kvs : List (S × PyVal))
+    (hdump : ∀ kvs', dumpV std false cfg (.map k kvs') = (dumpPairs std false cfg kvs').map (DVal.dict ord))
+    (hnd : (kvs.map (·.1)).Nodup)
+    (ih : ∀ p ∈ kvs, RT std cfg t p.2) : RT std cfg (.map k .str t) (.map k (kvs.map pyPair)) := by
+  intro d h
+  rw [hdump] at h
+  cases hd : dumpPairs std false cfg (kvs.map pyPair) with
+  | error e => simp [hd, Except.map] at h
+  | ok ps =>
+    simp [hd, Except.map] at h; subst h
+    have hm := mapME_pairs std cfg t kvs ps ih hd
+    have hall : (kvs.map pyPair).all (fun p => p.1.hashable) = true := by
+      simp [List.all_eq_true, pyPair, PyVal.hashable]
+    have hfold := foldl_dictInsert kvs [] (by simpa using hnd)
+    have htj : toJ (.dict ord ps) = .dict (toJPairs ps) := by rw [toJ]
+    rw [htj, loadD]
+    show (do let ps ← mapME (pairLoader std cfg t) (toJPairs ps); mkMap k ps) = _
+    simp only [hm, bind, Except.bind, mkMap, hall, if_true, pure, Except.pure]
+    simp only [List.map_nil, List.nil_append] at hfold
+    rw [hfold]
+
+theorem dump_lit (std : Std) (cfg : Option MetaCfg) (l : Lit) : dumpV std false cfg l.toPy = .ok l.toD := by
+  cases l <;> simp [Lit.toPy, Lit.toD, dumpV, dumpScalar, pure, Except.pure]
+
+theorem lit_hashable (l : Lit) : l.toJ.hashable = true := by
+  cases l <;> rfl
+
+theorem rt_literal (std : Std) (cfg : Option MetaCfg) (vs : List Lit) (l : Lit)
+    (hf : vs.find? (fun l' => jEqLit l.toJ l') = some l) : RT std cfg (.literal vs) l.toPy := by
+  intro d h
+  rw [dump_lit] at h; cases h
+  rw [toJ_litToD, loadD]
+  unfold asLiteral
+  simp only [lit_hashable, Bool.not_true, Bool.false_eq_true, if_false, hf]
+  cases l <;> simp [Lit.toJ, pure, Except.pure]
+
+theorem dumpV_ntuple (std : Std) (cfg : Option MetaCfg) (c : S) (names : List S) (xs : List PyVal) :
+    dumpV std false cfg (.ntuple c names xs) = (dumpList std false cfg xs).map (DVal.ntuple c) := by
+  rw [dumpV]
+  simp only [bind, Except.bind, pure, Except.pure, Except.map]
+
+theorem loadNtList_ok (std : Std) (cfg : Option MetaCfg) : ∀ (fields : List (S × Ty × Option Dflt)) (xs : List PyVal) (ds : List DVal),
+    xs.length = fields.length → (∀ p ∈ (fields.map (·.2.1)).zip xs, RT std cfg p.1 p.2) → dumpList std false cfg xs = .ok ds →
+    loadNtList std cfg fields (toJList ds) = .ok xs
+  | [], xs, ds, hl, _, h => by
+    have : xs = [] := by simpa using hl
+    subst this
+    simp only [dumpList, pure, Except.pure, Except.ok.injEq] at h; subst h; rfl
+  | f :: fs, [], ds, hl, _, _ => by simp at hl
+  | (n, t, dd) :: fs, x :: xs, ds, hl, ih, h => by
+    simp only [dumpList, bind, Except.bind] at h
+    split at h
+    · simp at h
+    · next y hy =>
+      split at h
+      · simp at h
+      · next ys hys =>
+        simp only [pure, Except.pure, Except.ok.injEq] at h; subst h
+        have h1 := ih (t, x) (by simp) y hy
+        have h2 := loadNtList_ok std cfg fs xs ys (by simpa using hl) (fun p hp => ih p (by simp [hp])) hys
+        simp only at h1
+        simp [toJList, loadNtList, h1, h2, bind, Except.bind, pure, Except.pure]
+
+theorem rt_ntuple (std : Std) (cfg : Option MetaCfg) (name : S) (fields : List (S × Ty × Option Dflt)) (xs : List PyVal)
+    (hl : xs.length = fields.length) (ih : ∀ p ∈ (fields.map (·.2.1)).zip xs, RT std cfg p.1 p.2) :
+    RT std cfg (.ntuple name fields) (.ntuple name (fields.map (·.1)) xs) := by
+  intro d h
+  rw [dumpV_ntuple] at h
+  cases hd : dumpList std false cfg xs with
+  | error e => simp [hd, Except.map] at h
+  | ok ds =>
+    simp [hd, Except.map] at h; subst h
+    have htj : toJ (.ntuple name ds) = .list (toJList ds) := by rw [toJ]
+    rw [htj, loadD]
+    · simp only [jIter, bind, Except.bind, loadNtList_ok std cfg fields xs ds hl ih hd, hl, List.drop_length, List.all_nil,
+        if_true, List.filterMap_nil, List.append_nil, pure, Except.pure]
+    · intro kvs hk; cases hk
+
 theorem dump_nonnull (std : Std) (cfg : Option MetaCfg) (t : Ty) (v : PyVal) (hc : Conf std cfg t v) (hn : nonNullTy t = true) (d : DVal)
     (h : dumpV std false cfg v = .ok d) : toJ d ≠ .null := by
   cases hc with
@@ -467,6 +613,27 @@ theorem dump_nonnull (std : Std) (cfg : Option MetaCfg) (t : Ty) (v : PyVal) (hc
       subst h
       unfold finishInst
       split <;> simp [toJ]
+  | set t xs _ _ _ =>
+    rw [dumpV_set] at h
+    cases hd : dumpList std false cfg xs <;> simp [hd, Except.map] at h
+    subst h; simp [toJ]
+  | frozenset t xs _ _ _ =>
+    rw [dumpV_frozenset] at h
+    cases hd : dumpList std false cfg xs <;> simp [hd, Except.map] at h
+    subst h; simp [toJ]
+  | defaultdict t kvs _ _ =>
+    rw [dumpV_defaultdict] at h
+    cases hd : dumpPairs std false cfg (kvs.map (fun p => (PyVal.str p.1, p.2))) <;> simp [hd, Except.map] at h
+    subst h; simp [toJ]
+  | ordereddict t kvs _ _ =>
+    rw [dumpV_ordereddict] at h
+    cases hd : dumpPairs std false cfg (kvs.map (fun p => (PyVal.str p.1, p.2))) <;> simp [hd, Except.map] at h
+    subst h; simp [toJ]
+  | literal vs l _ => simp [nonNullTy] at hn
+  | ntuple name fields xs _ _ =>
+    rw [dumpV_ntuple] at h
+    cases hd : dumpList std false cfg xs <;> simp [hd, Except.map] at h
+    subst h; simp [toJ]
 
 theorem rt_optSome (std : Std) (cfg : Option MetaCfg) (t : Ty) (v : PyVal) (hn : nonNullTy t = true) (hc : Conf std cfg t v) (ih : RT std cfg t v) :
     RT std cfg (.optional t) v := by
@@ -681,6 +848,12 @@ theorem roundtrip (std : Std) (cfg : Option MetaCfg) (laws : StdLaws std) (t : T
   | enum name members m v hm hr hu => exact rt_enum std cfg name members m v hm hr hu
   | dict t kvs hnd _ ih => exact rt_dict std cfg t kvs hnd ih
   | inst ci ftys vals hp hlen _ ih => exact rt_inst std cfg ci ftys vals hp hlen ih
+  | set t xs hh hd _ ih => exact rt_set std cfg t xs hh hd ih
+  | frozenset t xs hh hd _ ih => exact rt_frozenset std cfg t xs hh hd ih
+  | defaultdict t kvs hnd _ ih => exact rt_mapk std cfg .defaultdict false t kvs (dumpV_defaultdict std cfg) hnd ih
+  | ordereddict t kvs hnd _ ih => exact rt_mapk std cfg .ordereddict true t kvs (dumpV_ordereddict std cfg) hnd ih
+  | literal vs l hf => exact rt_literal std cfg vs l hf
+  | ntuple name fields xs hl _ ih => exact rt_ntuple std cfg name fields xs hl ih
 
 
 theorem orElse_self (o : MetaCfg) : o.orElse o = o := by
